@@ -331,6 +331,18 @@ Definition rw_finding_class_C15 (m : module) (q : list str) : option c15_rw_clas
   | Some _, None => Some KR_phantom
   end.
 
+(* the same classification with tree positions counted from [root] (SyncProps annotates the output file from [0]) *)
+Definition rw_finding_class_at (root : path) (m : module) (q : list str) : option c15_rw_class :=
+  if const_hazard q (annotate_at root m) then Some KR_constant else
+  match first_hit_list q (annotate_at root m), resolve_at root q m with
+  | None, None => None
+  | Some h, Some (p, n) =>
+    if path_eqb h p then None else Some KR_collision
+  | None, Some (_, PStmt (SFunc _ _ _ _ _)) => Some KR_function_target
+  | None, Some _ => Some KR_missed
+  | Some _, None => Some KR_phantom
+  end.
+
 (* ------------------------------------------------------------------ wire *)
 (* FAMILY: run_c15 *)
 Definition run_c15 (fn : sexp) (args : list sexp) : option sexp :=
